@@ -125,9 +125,17 @@ def run(tier):
     sets = option_sets(tier)
     mods = []
     bases = BASES if tier == "quick" else BASES + [{"skip_none": True}, {"other_variant": True}]
+    # breadth: every single-item operation of C01's operation space (the shapes those five operations do not have), under
+    # the default set and the first alternative of every option dimension
+    n_rich = len(ops)
+    for focus, labels, doc in space.operation_space("quick"):
+        if len(labels) == 1 and not gql.validate(schema, doc) and (tier == "thorough" or focus in ("F1q", "F2", "F3", "F4", "F6", "F8a")):
+            ops.append(("single item %s %s" % (focus, labels[0]), doc))
+    default_set = tuple(0 for _ in DIMS)
+    narrow = [default_set] + [tuple(1 if j == i else 0 for j in range(len(DIMS))) for i in range(len(DIMS))]
     for oi, (desc, doc) in enumerate(ops):
-        for bi, base in enumerate(bases):
-            for s in sets:
+        for bi, base in enumerate(bases if oi < n_rich else bases[:1]):
+            for s in (sets if oi < n_rich else narrow):
                 mods.append({"oi": oi, "desc": desc, "doc": doc, "set": s, "base": bi, "opts": dict(opts_of(s), **base)})
     resps = generate([gen_request(sdl, gql.render_doc(m["doc"]), m["opts"]) for m in mods])
     farm = Farm("c09")
@@ -150,7 +158,7 @@ def run(tier):
     for oi, (desc, doc) in enumerate(ops):
         ex = gql.Executor(schema, doc)
         op = doc.ops[0]
-        pl, bound = ex.payloads(op, full_cap=64, dev=2, dev_cap=800 if tier == "quick" else 3000)
+        pl, bound = ex.payloads(op, full_cap=64, dev=2 if oi < n_rich else 1, dev_cap=800 if tier == "quick" else 3000)
         vs = [("payload", p) for _, _, p in pl]
         for kind, rpath, bad, expect in corruptions(ex, op, pl[0][2]):
             vs.append(("corruption " + kind + " at " + rpath, bad))
